@@ -677,6 +677,190 @@ def r5(run, reach, only_via_static):
     run.record("ord_reaching_functions", len(ordreach))
 
 
+def shrinking_length_loop(prog, f):
+    """variant of a `loop`/`while` (the iterative form of `if merged.len() < original_len { recurse(merged) }`): every
+    natural loop of f has a switch on a comparison of two len() results of the same collection local, the earlier
+    one dominating a call that re-assigns the collection, which dominates the later one, and the only edge of that
+    switch that stays inside the loop is the one on which the later length is strictly smaller.  Returns a description
+    or None."""
+    b = prog.bodies[f]
+    cfg = prog.cfg(f)
+    sl = prog.slicer(f)
+    blocks = {blk["id"]: blk for blk in b["blocks"]}
+
+    def dom(a, x):
+        while True:
+            if x == a:
+                return True
+            nx = cfg.idom.get(x)
+            if nx is None or nx == x:
+                return False
+            x = nx
+
+    back = [(u, h) for u in cfg.reach for h in cfg.succ.get(u, []) if dom(h, u)]
+    if not back:
+        return None
+    heads = {}
+    for u, h in back:
+        heads.setdefault(h, []).append(u)
+    notes = []
+    for h, us in heads.items():
+        body = {h}
+        work = list(us)
+        while work:
+            x = work.pop()
+            if x in body:
+                continue
+            body.add(x)
+            work.extend(cfg.pred.get(x, []))
+        # len() calls inside the loop: dst local -> (block, base local of the receiver)
+        lens = {}
+        for i in body:
+            t = blocks[i]["term"]
+            if t["k"] == "call" and Program.callee_name(t).endswith("::len") and t["args"] and not t["dst"]["p"]:
+                pl = op_place(t["args"][0])
+                if pl is None:
+                    continue
+                base = pl["l"]
+                seen_ = set()
+                while base in sl.refof and sl.refof[base] and base not in seen_:
+                    seen_.add(base)
+                    base = sorted(sl.refof[base])[0]
+                lens[t["dst"]["l"]] = (i, base)
+
+        def len_of(op):
+            pl = op_place(op)
+            if pl is None or pl["p"]:
+                return None
+            l = pl["l"]
+            seen_ = set()
+            while l not in lens and l not in seen_:
+                seen_.add(l)
+                ds = [d for d in sl.defs.get(l, ()) if d[0] == "assign" and d[1]["rv"].get("k") == "use"]
+                if len(ds) != 1:
+                    return None
+                p2 = op_place(ds[0][1]["rv"]["ops"][0])
+                if p2 is None or p2["p"]:
+                    return None
+                l = p2["l"]
+            return lens.get(l)
+
+        ok_h = None
+        for i in body:
+            sw = blocks[i]["term"]
+            if sw["k"] != "switch":
+                continue
+            pl = op_place(sw["on"])
+            if pl is None:
+                continue
+            ds = [d for d in sl.defs.get(pl["l"], ()) if d[0] == "assign" and d[1]["rv"].get("k") == "bin"]
+            if len(ds) != 1:
+                continue
+            rv = ds[0][1]["rv"]
+            if rv["op"] not in ("Lt", "Le", "Gt", "Ge"):
+                continue
+            A, B = len_of(rv["ops"][0]), len_of(rv["ops"][1])
+            if not A or not B:
+                continue
+            if A[1] != B[1]:
+                # `let merged = f(items); if merged.len() >= original_len { return merged } items = merged;`:
+                # the later collection is the result of a call on the earlier one and is moved back into it
+                def produced_from(new, old):
+                    for j in body:
+                        t_ = blocks[j]["term"]
+                        if t_["k"] == "call" and not t_["dst"]["p"] and t_["dst"]["l"] == new:
+                            srcs = set()
+                            for a_ in t_["args"]:
+                                pa = op_place(a_)
+                                if pa is not None and not pa["p"]:
+                                    srcs.add(pa["l"])
+                                    for d_ in sl.defs.get(pa["l"], ()):
+                                        if d_[0] == "assign" and d_[1]["rv"].get("k") == "use":
+                                            q_ = op_place(d_[1]["rv"]["ops"][0])
+                                            if q_ is not None and not q_["p"]:
+                                                srcs.add(q_["l"])
+                            if old in srcs:
+                                return j
+                    return None
+
+                def root_of(l, depth=0):
+                    ds = [d_ for d_ in sl.defs.get(l, ()) if d_[0] == "assign" and d_[1]["rv"].get("k") == "use"]
+                    if len(ds) == 1 and depth < 4:
+                        q_ = op_place(ds[0][1]["rv"]["ops"][0])
+                        if q_ is not None and not q_["p"]:
+                            return root_of(q_["l"], depth + 1)
+                    return l
+
+                def moved_back(new, old):
+                    for j in body:
+                        for st in blocks[j]["stmts"]:
+                            if st.get("dst") and not st["dst"]["p"] and st["dst"]["l"] == old and (st.get("rv") or {}).get("k") == "use":
+                                q_ = op_place(st["rv"]["ops"][0])
+                                if q_ is not None and not q_["p"] and (q_["l"] == new or root_of(q_["l"]) == new):
+                                    return True
+                    return False
+                chained = None
+                for early, late, late_is_left in ((A, B, False), (B, A, True)):
+                    j = produced_from(late[1], early[1])
+                    if j is not None and moved_back(late[1], early[1]) and dom(early[0], j) and dom(j, late[0]):
+                        chained = (early, late, late_is_left, j)
+                if not chained:
+                    continue
+                early, late, late_is_left, j = chained
+                op = rv["op"]
+                strict_true = ({"Lt": 1, "Ge": 0} if late_is_left else {"Gt": 1, "Le": 0}).get(op)
+                if strict_true is None:
+                    continue
+                vals = list(sw["values"])
+                stay_truth = set()
+                for k_, tg in enumerate(sw["targets"]):
+                    if tg in body and any(tg == u_ or u_ in cfg.reachable_from(tg) for u_ in us):
+                        tv = vals[k_] if k_ < len(vals) else ("not", tuple(vals))
+                        stay_truth.add(1 if tv == ("not", (0,)) else 0 if tv == ("not", (1,)) else tv)
+                if stay_truth == {strict_true}:
+                    ok_h = "the loop continues only when the collection returned by the call in bb%d is strictly shorter than its argument, and moves it back (bb%d)" % (j, i)
+                continue
+            base = A[1]
+            # a call inside the loop that assigns the collection, between the two len() calls
+            call_dsts = {blocks[j]["term"]["dst"]["l"] for j in body if blocks[j]["term"]["k"] == "call" and not blocks[j]["term"]["dst"]["p"]}
+            assigns = [j for j in body if blocks[j]["term"]["k"] == "call" and not blocks[j]["term"]["dst"]["p"] and blocks[j]["term"]["dst"]["l"] == base]
+            for j in body:
+                for st in blocks[j]["stmts"]:
+                    d_, rv_ = st.get("dst"), st.get("rv") or {}
+                    if d_ and not d_["p"] and d_["l"] == base and rv_.get("k") == "use":
+                        src_ = op_place(rv_["ops"][0])
+                        if src_ is not None and not src_["p"] and src_["l"] in call_dsts:
+                            assigns.append(j)
+            for j in assigns:
+                for early, late, late_is_left in ((A, B, False), (B, A, True)):
+                    if dom(early[0], j) and dom(j, late[0]) and early[0] != late[0]:
+                        # truth value of the comparison on which `late < early` is certain
+                        op = rv["op"]
+                        if late_is_left:
+                            strict_true = {"Lt": 1, "Ge": 0}.get(op)
+                        else:
+                            strict_true = {"Gt": 1, "Le": 0}.get(op)
+                        if strict_true is None:
+                            continue
+                        stay = [tg for k_, tg in enumerate(sw["targets"]) if tg in body and any(tg == u_ or u_ in cfg.reachable_from(tg) for u_ in us)]
+                        vals = list(sw["values"])
+                        # targets: one per value, then otherwise
+                        stay_truth = set()
+                        for k_, tg in enumerate(sw["targets"]):
+                            if tg in stay:
+                                stay_truth.add(vals[k_] if k_ < len(vals) else ("not", tuple(vals)))
+                        want = {strict_true} if strict_true in vals else {("not", tuple(vals))} if strict_true == 1 and vals == [0] else {strict_true}
+                        norm = set()
+                        for tv in stay_truth:
+                            norm.add(1 if tv == ("not", (0,)) else 0 if tv == ("not", (1,)) else tv)
+                        if norm == {strict_true}:
+                            ok_h = "the loop continues only when the length of _%d after the call in bb%d is strictly smaller than before (bb%d)" % (base, j, i)
+        if not ok_h:
+            return None
+        notes.append(ok_h)
+    return "; ".join(notes)
+
+
 def r2(run, reach):
     prog = run.prog
     E = prog.edges()
@@ -761,7 +945,11 @@ def r2(run, reach):
     for l in prog.loops:
         if l["owner"] in reach and l["source"] in ("Loop", "While"):
             nloops += 1
-            run.bad("C01.R2", "unbounded-loop/%s" % short(l["owner"]), where(l), "`%s` loop in %s (reachable): no termination variant recognised" % (l["source"].lower(), l["owner"]))
+            var = shrinking_length_loop(prog, l["owner"])
+            if var:
+                run.ok("C01.R2", "`%s` loop in %s has a variant" % (l["source"].lower(), short(l["owner"])), where(l), var)
+            else:
+                run.bad("C01.R2", "unbounded-loop/%s" % short(l["owner"]), where(l), "`%s` loop in %s (reachable): no termination variant recognised" % (l["source"].lower(), l["owner"]))
     for p in sorted(reach):
         for bid, t in prog.calls(p):
             n = Program.callee_name(t)
